@@ -15,7 +15,7 @@ import re
 from ..core import Reporter, Workdir, try_compile, reset_cohdl_state, text_hash
 from .. import vhdl_sim as VS
 from ..vhdl_parse import Illegal, Unsupported
-from .. import gen_coro, gen_seq, chrun
+from .. import gen_coro, gen_seq, gen_constructs, chrun
 from ..cells import design_source
 from . import c02, c18, c17
 
@@ -170,8 +170,20 @@ def run(tier: str) -> int:
         sc = c17.cells()
         for k in range(0, len(sc), 30):
             corpus.append(("cells-c17", design_source(sc[k:k + 30], "concurrent"), "Cells"))
+        # constructs family (selectors of every kind, unclocked processes, arrays, enums, ...)
+        for key, src, ent in gen_constructs.programs(tier):
+            corpus.append((f"constructs|{key}", src, ent))
+        # hierarchy trees, std sequential utilities and register maps of the other checks
+        from . import c12, c14, c15, c16, c20
+        for key, seq, hier, flat, templates in c12.TREES:
+            corpus.append((f"hier|{key}", c12.design("Top", hier), "Top"))
+        for mod_ in (c14, c15, c16):
+            for job in mod_.jobs("quick"):
+                corpus.append((f"std|{job[0]}", job[1], "W"))
+        for name in c20.MAPS:
+            corpus.append((f"regmap|{name}", c20.design(name), "W"))
         for fam, src, ent in corpus:
-            _one(rep, wd, f"{fam}", src, ent, counts, rules, fam)
+            _one(rep, wd, f"{fam}", src, ent, counts, rules, fam.split("|")[0])
         # (b) names family
         for key, d in names_programs(tier, rng):
             src = TEMPLATE.format(**d)
